@@ -809,11 +809,13 @@ pub struct GenCfg {
     pub drop_vec_pct: usize,
     /// per mille: drop every receiver (top level, or in the middle of a transaction body)
     pub drop_all_pm: usize,
+    /// upper bound for the length of the initial vector
+    pub init_max: usize,
 }
 
 pub fn gen_vec_history(rng: &mut Rng, g: &GenCfg) -> VecHistory {
     let capacity = *rng.pick(g.caps);
-    let n_init = rng.below(g.maxlen.min(5) + 1);
+    let n_init = rng.below(g.init_max + 1);
     let init: Vec<u32> = (0..n_init).map(|_| rng.below(g.vmax as usize) as u32).collect();
     let mut model = init.clone();
     let n_ops = rng.range(g.min_ops, g.max_ops);
